@@ -17,14 +17,90 @@ import (
 	"github.com/whatap/golib/lang/value"
 	"github.com/whatap/golib/util/list"
 
+	"verifharness/core"
 	"verifharness/valgen"
 )
 
 type filler struct {
 	r     *rand.Rand
-	nonil bool // populate every optional section (used when the writer requires one that was left out)
-	big   int  // how many big items (long text, wide table) this instance may still get
-	wide  int  // k > 0: the k-th wire-boundary instance of its type: every list / table whose count travels in one byte gets a count at a boundary of that byte (the k-th of the list, in turn)
+	nonil bool     // populate every optional section (used when the writer requires one that was left out)
+	big   int      // how many big items (long text, wide table) this instance may still get
+	wide  int      // k > 0: the k-th wire-boundary instance of its type: every list / table whose count travels in one byte gets a count at a boundary of that byte (the k-th of the list, in turn)
+	min   *minPlan // not nil: minimal instance (gen "minimal")
+}
+
+// A MINIMAL instance: every element has the smallest encoding its type allows
+// (integers and decimals 0, texts and blobs empty, tables without entries,
+// optional sections left out unless the writer needs them) and every
+// count-prefixed SECTION (list, table, blob) holds exactly the number of
+// elements the plan gives it -- none, unless it is the section under test or
+// one the section under test lives in.  Such a pack is as short as a pack with
+// that count can be: a reader that guards a count against what is left of its
+// input ("n elements need at least k*n bytes") must accept it even when the
+// pack is the last thing in the input.
+type minPlan struct {
+	counts map[string]int      // "Struct.field" of a section -> number of elements (absent: 0)
+	seen   []string            // discovery: the sections met, in order
+	parent map[string][]string // discovery: the sections a section was met in
+	stack  []string
+}
+
+func (m *minPlan) site(key string) int {
+	if m.parent != nil {
+		if _, ok := m.parent[key]; !ok {
+			m.parent[key] = append([]string{}, m.stack...)
+			m.seen = append(m.seen, key)
+		}
+	}
+	n := m.counts[key]
+	if bc, ok := wireCount[key]; ok && n > bc.max-bc.reserved {
+		n = bc.max - bc.reserved
+	}
+	return n
+}
+func (m *minPlan) enter(key string) { m.stack = append(m.stack, key) }
+func (m *minPlan) leave()           { m.stack = m.stack[:len(m.stack)-1] }
+
+// the i-th of the shortest distinct text keys (no reserved first characters)
+func minKey(i int) string {
+	const abc = "abcdefghijklmnopqrstuvwxyzABCDEFGHIJKLMNOPQRSTUVWXYZ0123456789"
+	s := string(abc[i%len(abc)])
+	for i /= len(abc); i > 0; i /= len(abc) {
+		s += string(abc[i%len(abc)])
+	}
+	return s
+}
+
+// sections of a pack type and, per section, the sections it lives in: found by
+// populating minimal instances in which every section met so far holds one element
+func discoverSections(pt *ptype) *minPlan {
+	d := &minPlan{counts: map[string]int{}, parent: map[string][]string{}}
+	for round := 0; round < 6; round++ {
+		before := len(d.seen)
+		for _, nonil := range []bool{false, true} {
+			it := &instance{pt: pt, seed: 1, depth: 1, nonil: nonil, min: d}
+			core.Guard(func() { it.build() })
+			d.stack = d.stack[:0]
+		}
+		for _, k := range d.seen {
+			d.counts[k] = 1
+		}
+		if len(d.seen) == before && round > 0 {
+			break
+		}
+	}
+	return d
+}
+
+// planFor: section key holds n elements, the sections it lives in one, every other none
+func (d *minPlan) planFor(key string, n int) *minPlan {
+	p := &minPlan{counts: map[string]int{key: n}}
+	for _, a := range d.parent[key] {
+		if _, ok := p.counts[a]; !ok {
+			p.counts[a] = 1
+		}
+	}
+	return p
 }
 
 // lists whose length is fixed by the format
@@ -76,6 +152,9 @@ func (g *filler) boundary(key string) (int, bool) {
 // uint draws from the domain of an unsigned wire cell of the given width.
 func (g *filler) uint(bits int) int64 {
 	r := g.r
+	if g.min != nil {
+		return 0
+	}
 	max := int64(1)<<uint(bits) - 1
 	half := int64(1) << uint(bits-1)
 	switch r.Intn(8) {
@@ -92,6 +171,9 @@ func (g *filler) uint(bits int) int64 {
 
 func (g *filler) int(bits int) int64 {
 	r := g.r
+	if g.min != nil {
+		return 0
+	}
 	lim := func(v int64) int64 {
 		if bits >= 64 {
 			return v
@@ -120,6 +202,9 @@ func (g *filler) int(bits int) int64 {
 
 func (g *filler) textLen() int {
 	r := g.r
+	if g.min != nil {
+		return 0
+	}
 	switch r.Intn(16) {
 	case 0, 1:
 		return 0
@@ -155,6 +240,9 @@ func (g *filler) count() int {
 }
 
 func (g *filler) value(depth int) value.Value {
+	if g.min != nil {
+		return value.NewNullValue()
+	}
 	b := 6
 	o := &valgen.Opts{MaxWidth: 4, MaxBlob: 300, Budget: &b}
 	return valgen.Build(valgen.Rand(g.r, depth, o))
@@ -169,14 +257,28 @@ func (g *filler) anyList(n int) list.AnyList {
 		case list.ANYLIST_LONG:
 			a.AddLong(g.int(64))
 		case list.ANYLIST_FLOAT:
-			a.AddFloat(math.Float32frombits(valgen.RandF32(g.r, false)))
+			a.AddFloat(math.Float32frombits(g.f32()))
 		case list.ANYLIST_DOUBLE:
-			a.AddDouble(math.Float64frombits(valgen.RandF64(g.r, false)))
+			a.AddDouble(math.Float64frombits(g.f64()))
 		default:
 			a.AddString(g.text())
 		}
 	}
 	return a
+}
+
+func (g *filler) f32() uint32 {
+	if g.min != nil {
+		return 0
+	}
+	return valgen.RandF32(g.r, false)
+}
+
+func (g *filler) f64() uint64 {
+	if g.min != nil {
+		return 0
+	}
+	return valgen.RandF64(g.r, false)
 }
 
 func (g *filler) elem(kind string, rows int) interface{} {
@@ -211,7 +313,7 @@ func (g *filler) fillStruct(v reflect.Value) {
 func (g *filler) scalar(v reflect.Value, key string) {
 	switch v.Kind() {
 	case reflect.Bool:
-		v.SetBool(g.r.Intn(2) == 1)
+		v.SetBool(g.r.Intn(2) == 1 && g.min == nil)
 	case reflect.Int, reflect.Int8, reflect.Int16, reflect.Int32, reflect.Int64:
 		bits := v.Type().Bits()
 		if b, ok := wireBits[key]; ok {
@@ -225,9 +327,9 @@ func (g *filler) scalar(v reflect.Value, key string) {
 	case reflect.Uint, reflect.Uint8, reflect.Uint16, reflect.Uint32, reflect.Uint64:
 		v.SetUint(uint64(g.int(64)) & (^uint64(0) >> uint(64-v.Type().Bits())))
 	case reflect.Float32:
-		setF32(v, valgen.RandF32(g.r, false))
+		setF32(v, g.f32())
 	case reflect.Float64:
-		setF64(v, valgen.RandF64(g.r, false))
+		setF64(v, g.f64())
 	case reflect.String:
 		v.SetString(g.text())
 	}
@@ -241,6 +343,8 @@ func (g *filler) fill(v reflect.Value, owner, fname string) {
 	switch {
 	case isScalarKind(t.Kind()):
 		g.scalar(v, key)
+	case t.Kind() == reflect.Slice && t.Elem().Kind() == reflect.Uint8 && g.min != nil:
+		v.SetBytes(make([]byte, g.min.site(key)))
 	case t.Kind() == reflect.Slice && t.Elem().Kind() == reflect.Uint8:
 		switch r.Intn(8) {
 		case 0:
@@ -266,6 +370,9 @@ func (g *filler) fill(v reflect.Value, owner, fname string) {
 			if b, ok := g.boundary(key); ok {
 				n = b
 			}
+			if g.min != nil {
+				n = g.min.site(key)
+			}
 		}
 		s := reflect.MakeSlice(t, n, n)
 		for i := 0; i < n; i++ {
@@ -273,7 +380,7 @@ func (g *filler) fill(v reflect.Value, owner, fname string) {
 		}
 		v.Set(s)
 	case t == tStringPtr:
-		if !g.nonil && r.Intn(4) == 0 {
+		if !g.nonil && (r.Intn(4) == 0 || g.min != nil) {
 			v.Set(reflect.Zero(t))
 			return
 		}
@@ -281,7 +388,11 @@ func (g *filler) fill(v reflect.Value, owner, fname string) {
 		v.Set(reflect.ValueOf(&s))
 	case t.Kind() == reflect.Slice && t.Elem().Kind() == reflect.Struct:
 		n := g.count()
-		if n == 0 && r.Intn(2) == 0 {
+		if g.min != nil {
+			n = g.min.site(key)
+			g.min.enter(key)
+			defer g.min.leave()
+		} else if n == 0 && r.Intn(2) == 0 {
 			v.Set(reflect.Zero(t))
 			return
 		}
@@ -298,7 +409,7 @@ func (g *filler) fill(v reflect.Value, owner, fname string) {
 		v.Set(reflect.ValueOf(g.value(1)))
 	case t.Kind() == reflect.Ptr:
 		if h := containerOf(t, owner, fname); h != nil {
-			if v.IsNil() && !g.nonil && r.Intn(3) == 0 {
+			if v.IsNil() && !g.nonil && (r.Intn(3) == 0 || (g.min != nil && g.min.site(key) == 0)) {
 				return // optional table left out
 			}
 			g.fillContainer(v, h, key)
@@ -306,7 +417,7 @@ func (g *filler) fill(v reflect.Value, owner, fname string) {
 		}
 		if t.Elem().Kind() == reflect.Struct {
 			if v.IsNil() {
-				if !g.nonil && r.Intn(3) == 0 {
+				if !g.nonil && (r.Intn(3) == 0 || g.min != nil) {
 					return
 				}
 				v.Set(reflect.New(t.Elem()))
@@ -325,11 +436,19 @@ func (g *filler) fillContainer(v reflect.Value, h *container, key string) {
 	if b, ok := g.boundary(key); ok {
 		n = b
 	}
+	if g.min != nil {
+		n = g.min.site(key)
+		g.min.enter(key)
+		defer g.min.leave()
+	}
 	el := tableElem[key]
 	if i := strings.IndexByte(el, ':'); i >= 0 {
 		el = el[i+1:] // "keytype:valuetype"
 	}
 	rows := g.r.Intn(4)
+	if g.min != nil {
+		rows = 0
+	}
 	seenI := map[int32]bool{}
 	seenS := map[string]bool{}
 	var es []entry
@@ -339,6 +458,9 @@ func (g *filler) fillContainer(v reflect.Value, h *container, key string) {
 		switch proto.(type) {
 		case int32:
 			x := int32(g.int(32))
+			if g.min != nil {
+				x = int32(i)
+			}
 			for seenI[x] || x>>24 == 0x7e {
 				x = int32(g.r.Uint32())
 			}
@@ -346,6 +468,9 @@ func (g *filler) fillContainer(v reflect.Value, h *container, key string) {
 			k = x
 		case string:
 			s := g.text()
+			if g.min != nil {
+				s = minKey(i)
+			}
 			for seenS[s] || s == "" || s[0] == '~' || s[0] == '_' {
 				s = fmt.Sprintf("k%d%s", i, s)
 			}
@@ -353,8 +478,14 @@ func (g *filler) fillContainer(v reflect.Value, h *container, key string) {
 			k = s
 		case *lang.PKIND:
 			k = lang.NewPKIND(g.int(64), int32(g.int(32)))
+			if g.min != nil {
+				k = lang.NewPKIND(int64(i), 0)
+			}
 		case *lang.POID:
 			k = lang.NewPOID(g.int(64), int32(g.int(32)))
+			if g.min != nil {
+				k = lang.NewPOID(int64(i), 0)
+			}
 		}
 		var val interface{}
 		switch h.newVal().(type) {
@@ -423,6 +554,9 @@ func (g *filler) hook(p interface{}, depth int) {
 		if b, ok := g.boundary("SMBasePack.CpuCore"); ok {
 			n = b
 		}
+		if g.min != nil {
+			n = g.min.site("SMBasePack.CpuCore")
+		}
 		q.CpuCore = make([]pack.Cpu, n)
 		for i := range q.CpuCore {
 			q.CpuCore[i] = g.cpu(win, osx)
@@ -438,6 +572,11 @@ func (g *filler) hook(p interface{}, depth int) {
 		}
 	case *pack.CompositePack:
 		n := g.r.Intn(4)
+		if g.min != nil {
+			n = g.min.site("CompositePack.pack")
+			g.min.enter("CompositePack.pack")
+			defer g.min.leave()
+		}
 		inner := make([]pack.Pack, n)
 		for i := range inner {
 			var ts []*ptype
@@ -448,7 +587,7 @@ func (g *filler) hook(p interface{}, depth int) {
 			}
 			pt := ts[g.r.Intn(len(ts))]
 			ip := pt.mk()
-			sub := &filler{r: g.r, nonil: g.nonil}
+			sub := &filler{r: g.r, nonil: g.nonil, min: g.min}
 			sub.populate(ip, depth-1)
 			inner[i] = ip.(pack.Pack)
 		}
